@@ -6,6 +6,7 @@
   level selection cannot panic.)
 -/
 import BS.Impl.World
+import BS.Proofs.Seek
 
 namespace BS.Props.C11
 open BS BS.Impl
@@ -19,38 +20,6 @@ theorem estimate_total (p dataLen : Nat) (r : RoughPos)
   unfold estimateLines
   cases hs : r.startArea <;> cases he : r.endArea <;> simp_all
 
-theorem takeWhile_length_all {α} (q : α → Bool) (l : List α) (h : (l.takeWhile q).length = l.length) :
-    ∀ x ∈ l, q x = true := by
-  induction l with
-  | nil => simp
-  | cons a t ih =>
-    simp only [List.takeWhile_cons] at h
-    split at h
-    · rename_i ha
-      intro x hx
-      simp only [List.mem_cons] at hx
-      rcases hx with rfl | hx
-      · exact ha
-      · exact ih (by simpa using h) x hx
-    · simp at h
-
-theorem takeWhile_length_le {α} (q : α → Bool) (l : List α) : (l.takeWhile q).length ≤ l.length := by
-  induction l with
-  | nil => simp
-  | cons a t ih =>
-    simp only [List.takeWhile_cons]
-    split <;> simp <;> omega
-
-theorem getElem_takeWhile_length {α} (q : α → Bool) (l : List α) (x : α)
-    (h : l[(l.takeWhile q).length]? = some x) : q x = false := by
-  induction l with
-  | nil => simp at h
-  | cons a t ih =>
-    simp only [List.takeWhile_cons] at h
-    split at h
-    · simp at h; exact ih h
-    · rename_i ha; simp at h; subst h; simpa using ha
-
 /-- **The `unreachable!` arm is unreachable**: a start area "from here till the end of the
 data" means every section starts before the start time; an end area "between two
 sections" means some section starts at or after the end time; with start ≤ end (checked
@@ -59,62 +28,41 @@ theorem unreachable_arm (v : DataView) (startTs endTs : Nat) (hle : startTs ≤ 
     (s fs a b fe : Nat)
     (h1 : startSearchBounds v startTs = .ok (.tillEnd s, fs))
     (h2 : endSearchBounds v endTs = .ok (.window a b, fe)) : False := by
-  -- start: the binary search ran off the end
-  have hall : ∀ e ∈ v.entries, e.ts < startTs := by
-    unfold startSearchBounds bsearch at h1
-    simp only [bind, Except.bind, pure, Except.pure] at h1
-    have key : (v.entries.takeWhile fun e => decide (e.ts < startTs)).length = v.entries.length := by
-      generalize hi : (v.entries.takeWhile fun e => decide (e.ts < startTs)).length = i at h1
-      cases hget : v.entries[i]? with
-      | none =>
-        have := List.getElem?_eq_none_iff.mp hget
-        have hle' : i ≤ v.entries.length := by rw [← hi]; exact takeWhile_length_le _ _
-        omega
-      | some x =>
-        exfalso
-        simp only [hget] at h1
-        by_cases hx : (x.ts == startTs) = true
-        · simp [hx, getE, hget] at h1
-        · simp only [hx] at h1
-          by_cases hi0 : i = 0
-          · simp [hi0, getE] at h1
-            split at h1 <;> simp at h1
-          · simp only [hi0, if_false, Bool.false_eq_true] at h1
-            have hlt : i < v.entries.length := by
-              have := List.getElem?_eq_some_iff.mp hget
-              exact this.1
-            have hne : ¬ i = v.entries.length := by omega
-            simp only [hne, if_false, getE, hget] at h1
-            split at h1
+  obtain ⟨_, hS1, hS2, _⟩ := bsearch_spec v.entries startTs
+  obtain ⟨hEk, _, hE2, _⟩ := bsearch_spec v.entries endTs
+  -- start: the binary search ran off the end, so every section is older than startTs
+  have hall : ∀ (m : Nat) (x : IEntry), v.entries[m]? = some x → x.ts < startTs := by
+    unfold startSearchBounds at h1
+    simp only at h1
+    split at h1
+    · split at h1 <;> simp at h1
+    · split at h1
+      · split at h1 <;> simp at h1
+      · split at h1
+        · rename_i hlen
+          intro m x hx
+          have hm : m < v.entries.length := (List.getElem?_eq_some_iff.mp hx).1
+          exact hS1 m x (by omega) hx
+        · split at h1
+          · split at h1
             · simp at h1
-            · split at h1 <;> (try simp at h1) <;> (split at h1 <;> simp at h1)
-    intro e he
-    have := takeWhile_length_all _ _ key e he
-    simpa using this
-  -- end: the entry the binary search stopped at is not before the end time
-  unfold endSearchBounds bsearch at h2
-  simp only [bind, Except.bind, pure, Except.pure] at h2
-  generalize hi : (v.entries.takeWhile fun e => decide (e.ts < endTs)).length = i at h2
-  cases hget : v.entries[i]? with
-  | none =>
-    simp only [hget] at h2
-    have hlen : i = v.entries.length := by
-      have := List.getElem?_eq_none_iff.mp hget
-      have hle' : i ≤ v.entries.length := by rw [← hi]; exact takeWhile_length_le _ _
-      omega
-    by_cases hi0 : i = 0
-    · simp [hi0] at h2
-    · simp [hi0, hlen, getE] at h2
-      split at h2
-      · simp at h2
-      · cases hg : v.entries[v.entries.length - 1]? <;> simp [hg] at h2
-  | some x =>
-    have hx : ¬ x.ts < endTs := by
-      have := getElem_takeWhile_length (fun e => decide (e.ts < endTs)) v.entries x (by rw [hi]; exact hget)
-      simpa using this
-    have hmem : x ∈ v.entries := List.mem_of_getElem? hget
-    have := hall x hmem
-    omega
+            · split at h1 <;> simp at h1
+          · simp at h1
+  -- end: the entry the search stopped at is not older than endTs
+  unfold endSearchBounds at h2
+  simp only at h2
+  split at h2
+  · split at h2 <;> simp at h2
+  · split at h2
+    · simp at h2
+    · split at h2
+      · split at h2 <;> simp at h2
+      · split at h2
+        · rename_i prev next hprev hnext
+          have := (hE2 next hnext).1
+          have := hall _ next hnext
+          omega
+        · simp at h2
 
 example : ∃ est, estimateLines 4 100 ⟨5, .window 12 60, 0, 9, .window 12 60, 0⟩ = .ok est :=
   estimate_total 4 100 _ (by simp)
